@@ -109,6 +109,14 @@ claim("C17", "MIR construction-site gate + ref-cast obligation over every IotaDo
       "from_inner_ref_unchecked obliges every IotaDocument constructor to store a normalised IOTA DID: three constructors do not (known findings D11a, D11b, D14, probe in findings/).",
       "prefix_hex behaviour; to_lowercase on non-ASCII input.", "DESIGN.md §7 C17")
 
+claim("C18", "HIR field coverage against the struct definitions (Option fields = tested = dropped) + format-template decoding vs RFC 7638/8037 + who-may-write enumeration of kty/params + guard dominance in from_builder",
+      "Decides for all JWKs: for Ec/Rsa/Okp the Option-typed members are exactly the ones is_public tests and to_public sets to None, every other member is cloned from self (so the projection is "
+      "idempotent and contains no private member), Oct has no projection and never reports public; Jwk::to_public starts from the projected params and copies only use/key_ops/alg/kid; the thumbprint "
+      "templates contain exactly the required members in lexicographic order, each printing the same-named field; every writer of Jwk::kty/params is enumerated: new, from_params, set_kty, set_params "
+      "(checked table), TryFrom<JwkExt>, Zeroize keep the coupling — derived Deserialize, set_params_unchecked and params_mut do not (known findings D7a–c, probe in findings/); VerificationMethod is "
+      "built only in from_builder after `!jwk.is_public()` → PrivateKeyMaterialExposed (and in the pass-through map/try_map); key generation returns the public projection.",
+      "SHA-256/base64url steps of the thumbprint.", "DESIGN.md §7 C18")
+
 for _p, _r in {
     "C01": "rules not yet implemented in this revision (planned, DESIGN §7)", "C02": "rules not yet implemented in this revision",
     "C03": "rules not yet implemented in this revision", "C04": "rules not yet implemented in this revision",
